@@ -268,6 +268,19 @@ def check_patch_extent(ctx):
                 for nm, c in names:
                     if nm not in EXECUTES_MODULE_CODE | CACHE_IO | {"super", "partial", "patch", "get_hash", "source_to_code", "get_data", "set_data", "cache_from_source"} | {h.split(".")[-1] for h in helpers}:
                         ctx.bad("C18.3", meth, c, f"`{short(c, 50)}` inside the patched region is not known to be free of module execution")
+    # every delegation to the cache-reading get_code must happen under this loader's own patch
+    gc = ld.methods.get("get_code")
+    if gc is not None and n > 0:
+        inside = set()
+        for w in [x for x in walk_scope(gc.node) if isinstance(x, ast.With)]:
+            for b in w.body:
+                for c in ast.walk(b):
+                    if isinstance(c, ast.Call):
+                        inside.add(id(c))
+        for c in m.calls_in(gc):
+            if isinstance(c.func, ast.Attribute) and c.func.attr == "get_code" and id(c) not in inside:
+                ctx.bad("C18.3", gc, c, "the module's bytecode is looked up / written (super().get_code) on a path that does not install this loader's own cache tag: a module "
+                        "imported while another hook's tag is in place is cached under that other typechecker's tag")
     if n == 0:
         f0 = ld.methods.get("exec_module") or ld.methods.get("get_code") or list(ld.methods.values())[0]
         ctx.bad("C18.3", f0, f0.node, "importlib's cache_from_source is never patched: instrumented bytecode is cached under the ordinary name and reused by "
